@@ -503,7 +503,10 @@ def prep_observe(g, world, o):
             tg.parent = world
     # one direct observation absorbs the re-initialisation of accumulating pipelines after a spectral-setting change,
     # so that the counter difference measured around group.observe() counts observations only
-    o.observe()
+    try:
+        o.observe()
+    except Exception:  # noqa  (e.g. a member that is not attached to the group: the counters will tell)
+        pass
 
 
 def _samples(o):
@@ -963,9 +966,16 @@ def run(ctx, only=None):
     t = Trace(ctx)
     for c in sc['classes']:
         im = Impl(c, sc['table'], U, ctx.rng)
-        sweep(ctx, im, t)
-        membership(ctx, im, t)
-        random_histories(ctx, im, t, ctx.n(12, 250), ctx.n(25, 40))
+        for stream, f in (('sweep', lambda: sweep(ctx, im, t)), ('membership', lambda: membership(ctx, im, t)),
+                          ('random', lambda: random_histories(ctx, im, t, ctx.n(12, 250), ctx.n(25, 40)))):
+            try:
+                f()
+            except Exception as e:  # noqa
+                # the harness drives the implementation with inputs that are valid for the unchanged tree; an exception
+                # here means the implementation no longer behaves as modelled -> correspondence broken, S decides
+                import traceback
+                ctx.broke('correspondence', 'C15 %s stream of %s raised %s' % (stream, c['name'], exc_kind(e)),
+                          dict(trace=traceback.format_exc()[-1200:]))
     outs = ctx.driver(t.lines)
     ctx.traces = len(t.lines) + n_rt
     ndis = 0
